@@ -232,7 +232,22 @@ func iterObsN(t *Ty, vw view.View, h tree.HashFn, extra int) string {
 			return join(p)
 		})
 	}
-	return joinKV("ro="+ro, "ix="+ix, "get="+get)
+	fv := "-"
+	if c, ok := vw.(*view.ContainerView); ok {
+		// FieldValues(): all field views collected first, rendered afterwards (aliasing shows)
+		fv = guard(func() string {
+			vals, err := c.FieldValues()
+			if err != nil {
+				return "ERR"
+			}
+			var p []string
+			for _, x := range vals {
+				p = append(p, rootHex(x.HashTreeRoot(h)))
+			}
+			return join(p)
+		})
+	}
+	return joinKV("ro="+ro, "ix="+ix, "get="+get, "fv="+fv)
 }
 
 func isSeriesTy(t *Ty) bool {
